@@ -140,6 +140,9 @@ def check(ctx):
     corpus.append({"main.oal": 'use "a.oal" as a;\nuse "b.oal" as b;\nuse "lib.oal" as l;\nres /m on get -> <{ \'p a.x, \'q b.x, \'r l.name, \'s l.name }>;\n',
                    "a.oal": 'use "lib.oal" as l;\nlet x = { \'n l.name };\n', "b.oal": 'use "lib.oal" as l;\nlet x = { \'n l.name };\n',
                    "lib.oal": "let name = str;\n"})
+    corpus.append({"main.oal": 'use "lib/types.oal" as t;\nuse "lib/paths.oal";\nlet item = num;\nlet wrap item = { \'v item, \'id t.item };\nres /items on get -> <wrap str>;\nres /boxed on get -> <{ \'b boxed, \'i t.item }>;\n',
+                   "lib/types.oal": "let item = str;\n", "lib/paths.oal": 'use "types.oal" as ty;\nuse "../top.oal" as up;\nlet boxed = { \'x ty.item, \'y up.z };\n',
+                   "top.oal": "let z = int;\n"})
     n = 40 if ctx.thorough else 10
     wss = corpus + [lspws.gen_workspace(ctx.rng) for _ in range(n)]
     for i, files in enumerate(wss):
@@ -150,7 +153,7 @@ def check(ctx):
             ctx.sample({"files": files})
     ctx.cov["distinct_nontrivial"] = ctx.cov["distribution"].get("nontrivial", 0)
     ctx.cov["traces_validated_against_impl"] = ctx.cov["distribution"].get("workspaces", 0)
-    ctx.cov["rule"] = ("corpus + generated shadowing-heavy workspaces (1-3 modules, qualified and unqualified imports, comments with multi-byte characters so "
+    ctx.cov["rule"] = ("corpus + generated shadowing-heavy workspaces (1-3 modules in the same or in nested directories with relative import paths incl. `../`, qualified and unqualified imports, comments with multi-byte characters so "
                        "that byte and UTF-16 columns and line numbers differ between files); against the real oal-lsp: definition at start/middle/end of every "
                        "use and of its identifier part, probes at non-identifier positions, references of every declaration with the inverse law; expected "
                        "answers from the compiler's own resolve (harness) and python position arithmetic. distinct_nontrivial = multi-module workspaces")
